@@ -62,9 +62,13 @@ def case_pattern(rng: Any, ctx: Ctx, index: int) -> None:
 
     def build() -> Any:
         segs, tags = [], []
-        for _ in range(k):
-            name = names[int(rng.integers(len(names)))]
-            tag, seg = patterns.PATTERNS[name](rng)
+        for j in range(k):
+            # the first pattern is chosen round-robin so that every rule is reached early in every shard
+            name = names[(index // max(1, ctx.nshards)) % len(names)] if j == 0 else names[int(rng.integers(len(names)))]
+            if name == 'blocks' and j == 0:
+                tag, seg = patterns.p_blocks(rng, (index // max(1, ctx.nshards)) // len(names))
+            else:
+                tag, seg = patterns.PATTERNS[name](rng)
             segs.append(seg)
             tags.append(tag)
         n_left = int(rng.integers(0, maxctx // 2 + 1))
